@@ -9,7 +9,7 @@ from typing import Any, List
 import numpy as np
 
 import catalog
-from common import Ctx
+from common import Ctx, rat
 from wraplib import eval_key, first_diff, sample_action, tree_close
 
 
@@ -64,6 +64,19 @@ def run(ctx: Ctx, extended: bool = False) -> None:
                     if not ok:
                         ctx.fail(e.cid, "multiToSingle_only_aggregates", f"MultiToSingleWrapper({name}) output is not the aggregated native timestep at step {i}", {**info, "aggregators": name})
                         break
+                    # the Lean model of MultiToSingleWrapper.reset/step on the native timestep: which native part every output is, and
+                    # the aggregated values (exact arithmetic; the implementation sums in float32)
+                    names = {"default": ("sum", "max"), "min/mean": ("min", "mean")}[name]
+                    pm = drv.call("wrappers.multi_to_single", agg_r=names[0], agg_d=names[1], mode="reset" if i == 0 else "step",
+                                  native={"step_type": int(t.step_type), "reward": [rat(x) for x in np.asarray(t.reward, np.float64).reshape(-1)],
+                                          "discount": [rat(x) for x in np.asarray(t.discount, np.float64).reshape(-1)]})
+                    parts = {"native_state": s, "native_obs": t.observation, "native_extras": t.extras}
+                    mok = (tree_close(ws, parts.get(pm["state"])) and tree_close(wt.observation, parts.get(pm["obs"])) and tree_close(wt.extras, parts.get(pm["extras"]))
+                           and int(wt.step_type) == pm["step_type"] and np.isclose(float(wt.reward), pm["reward"][0] / pm["reward"][1], rtol=1e-5, atol=1e-5)
+                           and np.isclose(float(wt.discount), pm["discount"][0] / pm["discount"][1], rtol=1e-5, atol=1e-5))
+                    if not mok:
+                        ctx.fail(e.cid, "multiToSingle_step", f"MultiToSingleWrapper({name}) {'reset' if i == 0 else 'step'} output differs from the model's prescription {pm} at step {i}", {**info, "aggregators": name})
+                        break
                     a = jnp.asarray(sample_action(base, rng))
                     s, t = jax.jit(base.step)(s, a)
                     ws, wt = jax.jit(w.step)(ws, a)
@@ -80,6 +93,8 @@ def run(ctx: Ctx, extended: bool = False) -> None:
         ri = 0
         state = None
         episode_over = False
+        gym_ops: List[Any] = []      # the script with the measured native outcome of every step, for the model (R := Rat)
+        gym_outs: List[Any] = []     # what the adapter returned
         first_episode: List[Any] = []
         replay_episode: List[Any] = []
         reseeded = False
@@ -97,7 +112,11 @@ def run(ctx: Ctx, extended: bool = False) -> None:
                 if not g.observation_space.contains(obs):
                     ctx.fail(e.cid, "gym_obs_in_space", "reset observation is not in the converted observation space", info, {"cls": e.cls, "phase": "reset"})
                 (replay_episode if reseeded else first_episode).append(("reset", obs))
+                gym_ops.append(op)
+                gym_outs.append({"obs": {"reset_obs_of_key": sched[ri - 1]}})
             elif isinstance(op, dict) and "seed" in op:
+                gym_ops.append(op)
+                gym_outs.append(None)
                 g.seed(op["seed"])
                 reseeded = op["seed"] == seed
                 replay_episode = []
@@ -112,6 +131,8 @@ def run(ctx: Ctx, extended: bool = False) -> None:
                 ctx.nontrivial.add((e.cid, "step", ri, len(first_episode) + len(replay_episode)))
                 want_term = bool(np.all(np.asarray(nts.discount) == 0))
                 want_trunc = int(nts.step_type) == 2
+                gym_ops.append({"step": {"step_type": int(nts.step_type), "reward": rat(float(nts.reward)), "discount": rat(float(np.asarray(nts.discount)))}})
+                gym_outs.append({"obs": "native_obs", "reward": float(reward), "terminated": bool(term), "truncated": bool(trunc)})
                 if not gym_obs_close(obs, nts.observation) or not np.isclose(reward, float(nts.reward), atol=1e-6):
                     ctx.fail(e.cid, "gym_step_relays", "gym step observation/reward differ from the native step", info)
                 if term != want_term or trunc != want_trunc:
@@ -122,6 +143,20 @@ def run(ctx: Ctx, extended: bool = False) -> None:
                     ctx.fail(e.cid, "gym_obs_in_space", "step observation is not in the converted observation space", info, {"cls": e.cls, "phase": "step"})
                 episode_over = episode_over or want_trunc
                 ctx.count(f"gym_step_term={term}_trunc={trunc}")
+        # the whole script through the Lean model of the adapter (rewards / discounts as exact rationals, terminated = (discount == 0)):
+        # every returned field against the model's prescription (the observations were compared above under the same key terms)
+        gm = drv.call("wrappers.gym_run", seed=seed, ops=gym_ops)
+        for k, (mo, go) in enumerate(zip(gm, gym_outs)):
+            ctx.evaluations += 1
+            if go is None or "reward" not in go:
+                same = mo == go
+            else:
+                same = (isinstance(mo, dict) and mo.get("obs") == go["obs"] and mo.get("terminated") == go["terminated"] and mo.get("truncated") == go["truncated"]
+                        and np.isclose(go["reward"], mo["reward"][0] / mo["reward"][1], atol=1e-6))
+            if not same:
+                ctx.fail(e.cid, "gym_flags" if isinstance(mo, dict) and "terminated" in mo else "gym_reset_schedule",
+                         f"gym call #{k} ({gym_ops[k] if not isinstance(gym_ops[k], dict) or 'step' not in gym_ops[k] else 'step'}) returned {go}, the model of the adapter prescribes {mo}", info)
+                break
         # ---------------- gym flags under a fractional discount: "terminated exactly when the native discount is zero" must not
         # rely on discounts being 0 or 1.  Two in-contract sources of discounts strictly between 0 and 1: a multi-agent environment
         # behind MultiToSingleWrapper with a mean aggregator, and any environment behind a wrapper that halves the discount.
@@ -146,6 +181,10 @@ def run(ctx: Ctx, extended: bool = False) -> None:
                 ctx.nontrivial.add((e.cid, fname, i, disc))
                 if 0.0 < disc < 1.0:
                     ctx.count("gym_fractional_discount_steps")
+                fm = drv.call("wrappers.gym_run", seed=seed + 3, ops=["reset", {"step": {"step_type": int(fts.step_type), "reward": rat(float(fts.reward)), "discount": rat(disc)}}])[1]
+                if fm["terminated"] != term or fm["truncated"] != trunc:
+                    ctx.fail(e.cid, "gym_flags", f"[{fname}] gym flags (terminated={term}, truncated={trunc}) but the model of the adapter prescribes {fm} for native discount {disc}", {**info, "variant": fname, "step": i})
+                    break
                 if term != (disc == 0.0) or trunc != (int(fts.step_type) == 2) or not np.isclose(reward, float(fts.reward), atol=1e-6):
                     ctx.fail(e.cid, "gym_flags", f"[{fname}] gym flags (terminated={term}, truncated={trunc}) but native discount=={disc}, LAST={int(fts.step_type) == 2}", {**info, "variant": fname, "step": i})
                     break
@@ -159,8 +198,22 @@ def run(ctx: Ctx, extended: bool = False) -> None:
         # long enough to reach the end of an episode when the configuration has a small time limit (truncation vs termination on the LAST step)
         nd = min(14, int(e.meta.get("time_limit") or 3) + 1)
         dm_script = ["reset"] + ["step"] * nd + ["reset", "step"]
-        sched = drv.call("wrappers.gym_schedule", seed=seed, ops=dm_script)
+        # `step` before the first `reset`: the model says it is an error (no state yet)
+        d0 = JumanjiToDMEnvWrapper(env, key=jax.random.PRNGKey(seed))
+        try:
+            d0.step(np.asarray(sample_action(env, rng)))
+            early = "ok"
+        except Exception:  # noqa: BLE001  (AttributeError: `_state` is only annotated in __init__)
+            early = "error"
+        dummy = {"step": {"step_type": 1, "reward": 0, "discount": 1}}
+        if drv.call("wrappers.dm_run", seed=seed, ops=[dummy])[0] != early:
+            ctx.fail(e.cid, "dm_step_before_reset", f"dm_env step before the first reset: {early}; the model of the adapter says error", info)
+        # first pass through the model for the key terms (they do not depend on the native outcomes), second pass with the measured
+        # native outcome of every step for the prescription of every returned field
+        sched = [r["obs"]["reset_obs_of_key"] for r in drv.call("wrappers.dm_run", seed=seed, ops=[o if o == "reset" else dummy for o in dm_script]) if isinstance(r, dict) and isinstance(r["obs"], dict)]
         ri = 0
+        dm_ops: List[Any] = []
+        dm_outs: List[Any] = []
         for op in dm_script:
             ctx.evaluations += 1
             if op == "reset":
@@ -171,12 +224,31 @@ def run(ctx: Ctx, extended: bool = False) -> None:
                     ctx.fail(e.cid, "dm_first", "dm_env first timestep carries a reward or discount or is not FIRST", info)
                 if not tree_close(ts.observation, nts.observation):
                     ctx.fail(e.cid, "dm_reset_schedule", f"dm_env reset #{ri} observation differs from env.reset on the documented key schedule", info)
+                dm_ops.append("reset")
+                dm_outs.append((ts, nts, sched[ri - 1]))
             else:
                 a = np.asarray(sample_action(env, rng))
                 ts = d.step(a)
                 state, nts = jstep(state, jnp.asarray(a))
                 if int(ts.step_type) != int(nts.step_type) or not tree_close(ts.observation, nts.observation) or not np.allclose(ts.reward, nts.reward, atol=1e-6) or not np.allclose(ts.discount, nts.discount, atol=1e-6):
                     ctx.fail(e.cid, "dm_step_relays", "dm_env step differs from the native step", info)
+                dm_ops.append({"step": {"step_type": int(nts.step_type), "reward": rat(float(nts.reward)), "discount": rat(float(nts.discount))}})
+                dm_outs.append((ts, nts, None))
+        for k, (mo, (ts, nts, kt)) in enumerate(zip(drv.call("wrappers.dm_run", seed=seed, ops=dm_ops), dm_outs)):
+            ctx.evaluations += 1
+
+            def opt_eq(got: Any, want: Any) -> bool:
+                return (got is None) if want is None else (got is not None and np.isclose(float(got), want[0] / want[1], atol=1e-6))
+            same = (isinstance(mo, dict) and int(ts.step_type) == mo["step_type"] and opt_eq(ts.reward, mo["reward"]) and opt_eq(ts.discount, mo["discount"])
+                    and (mo["obs"] == {"reset_obs_of_key": kt} if kt is not None else mo["obs"] == "native_obs") and tree_close(ts.observation, nts.observation))
+            if not same:
+                ctx.fail(e.cid, "dm_first" if kt is not None else "dm_step_relays",
+                         f"dm_env call #{k} returned (step_type={int(ts.step_type)}, reward={ts.reward}, discount={ts.discount}); the model of the adapter prescribes {mo}", info)
+                break
+        # a second adapter constructed with the same key reproduces the first reset (dm_reseed_reproducible)
+        d2 = JumanjiToDMEnvWrapper(env, key=jax.random.PRNGKey(seed))
+        if not tree_close(d2.reset().observation, dm_outs[0][1].observation):
+            ctx.fail(e.cid, "dm_reseed_reproducible", "a dm_env adapter constructed with the same key does not reproduce the first observation", info)
         # observation satisfies the converted dm_env spec
         try:
             spec = d.observation_spec()
